@@ -9,7 +9,7 @@ from core import Case, nlist
 from pyerr import canon_call, exc_code
 
 PROP = 'C09'
-COQ_TARGETS = ['theories/BvllFacts.vo']
+COQ_TARGETS = ['theories/BvllTotal.vo']
 COQ_IMPORTS = 'From Bac Require Import Base Bvll.'
 TABLE_OBLIGATIONS = ['registry_table_exact', 'ctor_function_table', 'ctor_type_table', 'message_type_table',
                      'ctor_length_table']
